@@ -77,6 +77,8 @@ def build_and_validate_headers(headers: Iterable[Tuple[bytes, bytes]]) -> List[T
         if not isinstance(name, (bytes, bytearray)) or not isinstance(value, (bytes, bytearray)):
             raise TypeError("Header names and values must be bytes")
         name, value = bytes(name).strip(), bytes(value).strip()
+        if name == b"":
+            raise ValueError("Header names must not be empty")
         if name[:1] == b":":
             raise ValueError("Pseudo headers are not valid")
         if _INVALID_HEADER_NAME_BYTES.intersection(name) or _INVALID_HEADER_VALUE_BYTES.intersection(
